@@ -873,7 +873,7 @@ pub fn run_c17<H: HB>(tier: Tier) -> Outcome {
             let r = if d { capacity_grid::<DPQ<H>>(ml, ma) } else { capacity_grid::<PQ<H>>(ml, ma) };
             match r {
                 Ok(c) => cases += c,
-                Err((hist, e)) => viol.push(Case { prop: prop.into(), hasher: H::NAME.into(), double: d, root: Root::New, ops: hist[..hist.len() - 1].to_vec(), last: hist.last().cloned(), probe: None, detail: e, universe: vec![], aux: None, trail: vec![], params: vec![] }),
+                Err((hist, e)) => viol.push(Case { prop: prop.into(), hasher: H::NAME.into(), double: d, root: Root::New, ops: hist[..hist.len() - 1].to_vec(), last: hist.last().cloned(), probe: Some("capacity-grid".into()), detail: e, universe: vec![], aux: None, trail: vec![], params: vec![] }),
             }
         }
         absorb_post(&mut out, &format!("capacity grid: queues of 0..={ml} elements grown by pushes (plain / shrunk then pushed / grown then popped) x every reservation call x every amount 0..={ma}"), cases, viol, t0, json!({}));
@@ -897,6 +897,24 @@ pub fn run_c17<H: HB>(tier: Tier) -> Outcome {
 /// C17: a fully enumerated grid of (history shape, length, amount, call): queues grown by pushes
 /// (so that the three internal tables have their natural, different capacities), optionally
 /// shrunk and pushed again, then every reservation call with every amount 0..=A.
+/// Replay of one capacity-grid case: the history is executed on ONE queue, never on clones.
+pub fn replay_capacity_case<Q: QueueLike>(ops: &[Op], last: &Op) -> Result<(), String> {
+    let mut q = Q::q_new();
+    let mut m = Model::new();
+    let mut un = false;
+    for op in ops {
+        step(&mut q, op, &mut m, &mut un)?;
+    }
+    let r = std::panic::catch_unwind(std::panic::AssertUnwindSafe(|| step(&mut q, last, &mut m, &mut un)));
+    match r {
+        Err(e) => return Err(format!("{last:?} on a queue of {} panicked: {}", m.len(), panic_text(&e))),
+        Ok(Err(e)) => return Err(e),
+        Ok(Ok(_)) => {}
+    }
+    let s = q.snap();
+    check_state(&q, &s, &m, false, &[]).map_err(|e| format!("after {last:?}: {e}"))
+}
+
 fn capacity_grid<Q: QueueLike>(max_len: usize, max_amount: usize) -> Result<u64, (Vec<Op>, String)> {
     let mut cases = 0;
     for shape in 0..3 {
@@ -916,16 +934,22 @@ fn capacity_grid<Q: QueueLike>(max_len: usize, max_amount: usize) -> Result<u64,
                     hist.push(Op::PopHi);
                 }
             }
-            let mut base = Q::q_new();
-            let mut m = Model::new();
             let mut un = false;
-            for op in &hist {
-                step(&mut base, op, &mut m, &mut un).map_err(|e| (hist.clone(), e))?;
-            }
+            // NOT cloned: a clone has freshly sized tables, the capacities that matter here come
+            // from the growth history, so the queue is rebuilt for every case
+            let build = |hist: &Vec<Op>| -> Result<(Q, Model), (Vec<Op>, String)> {
+                let mut base = Q::q_new();
+                let mut m = Model::new();
+                let mut un = false;
+                for op in hist {
+                    step(&mut base, op, &mut m, &mut un).map_err(|e| (hist.clone(), e))?;
+                }
+                Ok((base, m))
+            };
             for amount in 0..=max_amount {
                 for op in [Op::Reserve(amount), Op::ReserveExact(amount), Op::TryReserve(amount), Op::TryReserveExact(amount)] {
                     cases += 1;
-                    let mut q = base.clone();
+                    let (mut q, m) = build(&hist)?;
                     let mut mm = m.clone();
                     let mut h2 = hist.clone();
                     h2.push(op.clone());
